@@ -304,6 +304,13 @@ impl<T: Clone> SentRotateGuard<'_, T> {
     ///
     /// [`Largest Acknowleged`]: https://www.rfc-editor.org/rfc/rfc9000.html#name-ack-frames
     pub fn update_largest(&mut self, ack_frame: &AckFrame) -> Result<(), QuicError> {
+        if !ack_frame.is_valid() {
+            return Err(QuicError::new(
+                ErrorKind::FrameEncoding,
+                ack_frame.frame_type().into(),
+                "ack frame acknowledges a negative packet number",
+            ));
+        }
         // `largest()` is the next packet number to send: acknowledging it is as wrong as any larger one
         if ack_frame.largest() >= self.inner.sent_packets.largest() {
             return Err(QuicError::new(
